@@ -129,6 +129,7 @@ type Disturb struct {
 	W     int    `json:"w,omitempty"`
 	H     int    `json:"h,omitempty"`
 	Burst int    `json:"burst,omitempty"`
+	Msg   string `json:"msg,omitempty"` // printf | printtransientf: literal text appended to the message (may hold newlines)
 }
 
 // Plan is the schedule/fault plan of a session.
